@@ -64,6 +64,10 @@ class GenericSDE(nn.Module):
         self.rowdep = bool(spec.get("rowdep", False))
         self.register_buffer("rowscale", 1.0 + 0.6 * (torch.rand(16, generator=gen, dtype=dtype) - 0.5))
 
+        # optional regime switch: from time `gswitch` on the diffusion is a constant (no state, no parameter in it)
+        self.gswitch = spec.get("gswitch")
+        self.register_buffer("gconst", 0.3 + 0.4 * torch.rand(d, 1 if nt == "diagonal" else m, generator=gen, dtype=dtype))
+
     def _row(self, y, ndim):
         if not self.rowdep:
             return 1.0
@@ -79,6 +83,10 @@ class GenericSDE(nn.Module):
 
     def g(self, t, y):
         nt = self.noise_type
+        if self.gswitch is not None and float(t) >= self.gswitch:
+            if nt == "diagonal":
+                return self.gconst[:, 0].unsqueeze(0).expand(y.size(0), -1)
+            return self.gconst.unsqueeze(0).expand(y.size(0), -1, -1)
         if nt == "diagonal":
             return self._row(y, 2) * self.gscale * (self.ga + self.gb * torch.tanh(self.gc * y + self.tdep * t * self.ge))
         if nt == "additive":
